@@ -164,9 +164,9 @@ func (poolSlice) Corpus() [][]string {
 			c = s
 			c.closeAt = "start"
 			out = append(out, mk(c))
-			// every request index: each fault kind, and Close (the full sweep for two of the four stream
-			// shapes; the generator sweeps the indices of the others)
-			if (f == "fmp4") != (l == "single") {
+			// every request index: each fault kind, and Close (the full sweep for the single-playlist shapes;
+			// the generator sweeps the indices of the multivariant ones)
+			if l != "single" {
 				continue
 			}
 			for i := 0; i <= s.nreq(); i++ {
